@@ -66,7 +66,7 @@ def eval_c02(st, merged, kf_s2=True):
     fully = {v for v in seqv if not (set(range(0, rowlast(v) + 1)) - rowseqs(v))}
     durably = merged | fully
     memp = {p["v"] for p in st["partials"]}
-    stale = {v for v in merged if v in memp or v in seqv} if kf_s2 else set()
+    stale = {v for v in merged if v in seqv} if kf_s2 else set()
     if not adv_held <= durably:
         failed.append("C02_HeldIsDurable")
     if adv_need != (heads - merged) - seqv:
@@ -99,6 +99,10 @@ def eval_c02(st, merged, kf_s2=True):
 
     def drop(a):
         return {"head": a["head"], "need": a["need"], "partial": [p for p in a["partial"] if p["v"] not in stale]}
-    if drop(adv) != drop(advr):
+    a, r = drop(adv), drop(advr)
+    upto = set(range(1, r["head"] + 1))
+    held_r = upto - elems(r["need"]) - {p["v"] for p in advr["partial"]}
+    if not (a["partial"] == r["partial"] and r["head"] <= a["head"] and (elems(r["need"]) & upto) == (elems(a["need"]) & upto)
+            and held_r <= durably):
         failed.append("C02_ReloadEq")
     return failed
